@@ -20,11 +20,12 @@ CONSTANTS Net,          \* network name
           Caps          \* set of <<number of v4 addresses, number of v6 addresses>> (0 v6 = no v6 pool)
 
 VARIABLES alloc,        \* as in P_CNI: set of [a, h]
+          held,         \* as in P_CNI: addresses returned by successful adds, not yet released by a delete
           cap,          \* the pool capacities of this run
           last          \* the last call with its result (what P_CNI judges)
 
 P == INSTANCE P_CNI
-ivars == <<alloc, cap, last>>
+ivars == <<alloc, held, cap, last>>
 
 Addr4 == { <<"v4", i>> : i \in 1..cap[1] }
 Addr6 == { <<"v6", i>> : i \in 1..cap[2] }
@@ -34,7 +35,7 @@ Pair(a, h) == [a |-> a, h |-> h]
 HCc(c) == P!HC(Net, c)
 HLc(c) == P!HL(c)
 
-IInit == /\ alloc = {} /\ cap \in Caps /\ last = [op |-> "init"]
+IInit == /\ alloc = {} /\ held = {} /\ cap \in Caps /\ last = [op |-> "init"]
 
 \* outcome of one family phase when no hard error hits it
 Phase(want, S) == IF ~want THEN {<<"skip", 0>>} ELSE IF Free(S) = {} THEN {<<"short", 0>>} ELSE Free(S)
@@ -58,7 +59,8 @@ IAdd(c, planned, f) ==
          /\ f = "v4" => w4
          /\ f = "v6" => w6 /\ ~NoPool6
          /\ f = "rb" => partial
-         /\ alloc' = alloc \cup { Pair(a, HCc(c)) : a \in kept }
+         /\ alloc' = alloc \cup { Pair(a, HCc(c)) : a \in kept }      \* the rollback releases by ADDRESS: only this call's
+         /\ held' = IF ok THEN held \cup { Pair(a, HCc(c)) : a \in kept } ELSE held
          /\ last' = [op |-> "add", c |-> c, ok |-> ok, faulted |-> planned,
                      ips |-> IF ok THEN { [a |-> a, fam |-> a[1]] : a \in kept } ELSE {}]
     /\ UNCHANGED cap
@@ -80,6 +82,7 @@ IDel(c, planned, f) ==
           /\ \E S \in SUBSET hl : /\ (S # hl \/ hl = {})
                                   /\ alloc' = alloc \ (hc \cup S)
           /\ last' = [op |-> "del", c |-> c, ok |-> FALSE, faulted |-> planned, ips |-> {}]
+    /\ held' = held \cap alloc'
     /\ UNCHANGED cap
 
 \* an old plugin allocates one address of family fam under the pod's workload-ID handle
@@ -88,7 +91,7 @@ ILegacy(c, fam) ==
     /\ Free(S) # {}
     /\ \E a \in Free(S) : alloc' = alloc \cup {Pair(a, HLc(c))}
     /\ last' = [op |-> "legacy", c |-> c, ok |-> TRUE, faulted |-> FALSE, ips |-> {}]
-    /\ UNCHANGED cap
+    /\ UNCHANGED <<cap, held>>
 
 AddFaults == {"none", "v4", "v6", "rb"}
 DelFaults == {"none", "hc", "hl"}
@@ -101,16 +104,18 @@ INext ==
 ISpec == IInit /\ [][INext]_ivars
 
 \* ---- the design satisfies the property layer -----------------------------------------------------
-Judge(r, old, new) ==
-    CASE r.op = "add"    -> P!JudgeAdd(Net, r.c, r.c.fams, r.ok, r.ips, old, new)
-      [] r.op = "del"    -> P!JudgeDel(Net, r.c, r.ok, r.faulted, old, new)
-      [] r.op = "legacy" -> P!JudgeLegacy(r.c, old, new)
+Judge(r, old, hd, new, hd2) ==
+    CASE r.op = "add"    -> /\ P!JudgeAdd(Net, r.c, r.c.fams, r.ok, r.ips, old, hd, new)
+                            /\ hd2 = P!HeldAfterAdd(Net, r.c, r.ok, r.ips, hd)
+      [] r.op = "del"    -> P!JudgeDel(Net, r.c, r.ok, r.faulted, old, new) /\ hd2 = hd \cap new
+      [] r.op = "legacy" -> P!JudgeLegacy(r.c, old, hd, new) /\ hd2 = hd
       [] OTHER           -> FALSE
-Refines == [][Judge(last', alloc, alloc')]_ivars
+Refines == [][Judge(last', alloc, held, alloc', held')]_ivars
 
 \* structural sanity of the abstract store: one owner per address, nothing beyond the pools
 TypeOK == /\ \A p, q \in alloc : p.a = q.a => p = q
           /\ \A p \in alloc : p.a \in Addr4 \cup Addr6
+          /\ P!HeldAllocated
 
 \* ---- container universes (cfg files cannot write records) -----------------------------------------
 \* cid1 and cid2 are two containers of the same pod (container restart); cid3 is another pod, v4 only
